@@ -453,6 +453,7 @@ func runCase(env *ev.Env, c Case) (o ev.Outcome) {
 			// storage; nothing was validated, the case ends here.
 			o.KnownHits = append(o.KnownHits, "KF-C39-1")
 			o.Excluded = true
+			o.NonTrivial = false // nothing was validated: the case decided nothing
 			return
 		}
 		o.Failf("ValidateAll failed: %v", verr)
@@ -559,7 +560,7 @@ func TestC39(t *testing.T) {
 		Level: "exploration",
 		Rule: "a metadatapart storage (P2 filesystem store, or N1 = filesystem default + SQL cold store) populated by a generated program (puts, multipart uploads incl. UploadPartCopy, appends, copies and dedup producing shared parts, pending uploads), then 0-3 generated corruptions " +
 			"(byte flip, truncation, extension, deletion, swap of two files) of part files picked by role (shared / non-first / first / single / unreferenced / any), then ValidateAll in report-only or delete+force mode; " +
-			"non-trivial = at least one damaged part file is shared by >=2 objects or is a non-first part of a multi-part object; distinct = distinct case JSON",
+			"non-trivial = ValidateAll produced a report and at least one damaged part file is shared by >=2 objects or is a non-first part of a multi-part object (a case cut off by KF-C39-1 is never non-trivial); distinct = distinct case JSON",
 		Assumptions: []string{
 			"the object -> part-row mapping is read from the metadata tables (object and part repositories); part files are the files of the filesystem part store directory",
 			"oracle is byte based: a part is corrupted iff its file content differs from what the store wrote (a swap of two identical files corrupts nothing)",
